@@ -509,11 +509,12 @@ Definition all_same_leaf (T : dtables) (cls : string) (ss : list spelling) : boo
 (* D-C17-a: operations for which the library has TWO algorithms (the class's own method body and the
    generic elemwise/ufunc path); their agreement is checked by correspondence only *)
 Definition two_algorithm_ops : list (string * string) :=
-  [("COO", "isnan"); ("COO", "isinf"); ("GCXS", "isnan"); ("GCXS", "isinf");
+  [("COO", "isnan"); ("COO", "isinf"); ("GCXS", "isnan"); ("GCXS", "isinf"); ("DOK", "isnan"); ("DOK", "isinf");
    ("COO", "matrix_transpose"); ("GCXS", "matrix_transpose")].
 
-(* D-C17-b: DOK inherits the abstract stubs isnan/isinf of SparseArray (they return None) *)
-Definition stub_ops : list (string * string) := [("DOK", "isnan"); ("DOK", "isinf")].
+(* (D-C17-b, "DOK inherits the abstract stubs isnan/isinf of SparseArray, which return None", was repaired in
+   /repo by commit ea90286; its clause is gone: a stub reached by any spelling is again a failure of
+   spellings_agree_partial.) *)
 
 (* D-C17-c: namespace functions that convert the receiver with asCOO first (format is not preserved) *)
 Definition coercing_ops : list string := ["clip"].
@@ -522,7 +523,6 @@ Definition in_pairs (c o : string) (l : list (string * string)) : bool :=
   existsb (fun t => String.eqb (fst t) c && String.eqb (snd t) o) l.
 
 Definition clause_single_algorithm (cls op : string) : bool := negb (in_pairs cls op two_algorithm_ops).
-Definition clause_no_stub (cls op : string) : bool := negb (in_pairs cls op stub_ops).
 Definition clause_not_coerced (cls op : string) : bool := String.eqb cls "COO" || negb (mem op coercing_ops).
 
 (* does a call with npos positional arguments and the given keyword names bind to the signature? *)
